@@ -15,7 +15,7 @@ from common import setup_path
 
 setup_path()
 
-_REC = {"on": False, "events": []}
+_REC = {"on": False, "events": [], "fail_at": 0, "count": 0, "fired": False}
 _HOOKED = {"done": False}
 
 
@@ -31,9 +31,31 @@ class ConverterBoom(RuntimeError):
     pass
 
 
+class InjectedOSError(OSError):
+    pass
+
+
 def _audit(event, args):
     if not _REC["on"]:
         return
+    n0 = len(_REC["events"])
+    _audit_record(event, args)
+    if len(_REC["events"]) > n0 and _REC["fail_at"]:
+        # count file-system operations other than removals; make the fail_at-th one raise
+        op, path = _REC["events"][-1]
+        # only operations of the encoding/conversion phase: inside the private temporary directory or
+        # creating the parent directory.  Touching the target (the final move) or the resource folder
+        # beside it is the finalisation step, which the property's fault model does not cover.
+        rp = os.path.realpath(path)
+        in_scope = rp.startswith(_REC["tmp_prefix"]) or (op == "mkdir" and _REC["target_real"].startswith(rp + os.sep))
+        if op != "remove" and in_scope:
+            _REC["count"] += 1
+            if _REC["count"] == _REC["fail_at"] and not _REC["fired"]:
+                _REC["fired"] = True
+                raise InjectedOSError("injected at file-system operation %d (%s)" % (_REC["fail_at"], event))
+
+
+def _audit_record(event, args):
     try:
         if event == "open":
             path, mode, flags = args[0], args[1], args[2]
@@ -189,6 +211,11 @@ def run_one(sc):
             return None
         tempfile.tempdir = priv
         _REC["events"] = []
+        _REC["fail_at"] = s.get("fsfault", 0)
+        _REC["tmp_prefix"] = os.path.realpath(priv)
+        _REC["target_real"] = os.path.realpath(target)
+        _REC["count"] = 0
+        _REC["fired"] = False
         _REC["on"] = True
         outcome, exc = "returned", ""
         # what rtf_encode() returns in THIS call (an injected Exception may be absorbed inside the
@@ -239,7 +266,8 @@ def run_one(sc):
         rec["c"] = {"writer": writer, "target0": s["target0"], "conv": s["conv"], "converter": s["converter"], "fault": s["fault"],
                     "flavour": s["flavour"], "outcome": outcome, "exc": exc, "before": before, "after": after, "expected": expected,
                     "resources": ["report.html_files"] if writer == "html" else [],
-                    "reached_convert": bool(conv and conv.called), "fault_fired": fired["v"]}
+                    "reached_convert": bool(conv and conv.called), "fault_fired": fired["v"],
+                    "fsfault": s.get("fsfault", 0), "fs_fired": bool(_REC["fired"])}
         rec["ev"] = ev
         return rec
     finally:
